@@ -5,9 +5,16 @@
   A runtime object is a tree `W`.  `Desc` is the description of a composition as
   the harness builds it with the real constructor functions; `build` applies
   the constructors' reuse rule (`NewSafeX` returns its argument when it already
-  has exactly that dynamic type).
+  has exactly that dynamic type).  Every object returned by a constructor call is a *handle*:
+  `handles` gives, for every node of the `Desc` in prefix order, the path of its object in the
+  runtime tree (with the reuse rule two `Desc` nodes can denote the same `W` node), and operations
+  are addressed to handles (`closeAt`, `closedAt`, `run`).
+
+  The connective of `ReadWriteCloser.Closed()` is the regenerated fact `SA.Gen.c19PairClosedAnd`;
+  the `…G` functions take it as their first argument (`true` = `&&`, `false` = `||`).
 -/
 import SA.Base.Util
+import SA.Gen.C19
 namespace SA.Wrappers
 
 /-- dynamic Go type family of a Safe* wrapper -/
@@ -28,25 +35,28 @@ inductive W
   | pair (r w : W)
   deriving Repr
 
-/-- `x.(Closed)` then `.Closed()`: `none` when the object does not implement `Closed` -/
-def closedQ : W → Option Bool
+/-- `x.(Closed)` then `.Closed()`: `none` when the object does not implement `Closed`.
+    `cj`: connective of the pair's status (`true` = `&&`, `false` = `||`). -/
+def closedQG (cj : Bool) : W → Option Bool
   | .res _ h _ c => if h then some (decide (0 < c)) else none
   | .safe _ flag _ => some flag
-  | .deleg i => closedQ i
-  | .pair r w => some ((closedQ r == some true) && (closedQ w == some true))
+  | .deleg i => closedQG cj i
+  | .pair r w =>
+      some (if cj then (closedQG cj r == some true) && (closedQG cj w == some true)
+            else (closedQG cj r == some true) || (closedQG cj w == some true))
 
 /-- `Close()`; the Bool is "returned nil".  `LogClose x` is inlined as
     `if closedQ x = some true then (x, true) else close x`. -/
-def close : W → W × Bool
+def closeG (cj : Bool) : W → W × Bool
   | .res id h f c => (.res id h f (c + 1), !f)
   | .safe k flag i =>
       if flag then (.safe k flag i, true)
-      else if closedQ i = some true then (.safe k true i, true)
-      else let r := close i; (.safe k true r.1, r.2)
-  | .deleg i => let r := close i; (.deleg r.1, r.2)
+      else if closedQG cj i = some true then (.safe k true i, true)
+      else let r := closeG cj i; (.safe k true r.1, r.2)
+  | .deleg i => let r := closeG cj i; (.deleg r.1, r.2)
   | .pair r w =>
-      let a := if closedQ r = some true then (r, true) else close r
-      let b := if closedQ w = some true then (w, true) else close w
+      let a := if closedQG cj r = some true then (r, true) else closeG cj r
+      let b := if closedQG cj w = some true then (w, true) else closeG cj w
       (.pair a.1 b.1, a.2 && b.2)
 
 /-- close counts of all resources, in tree order -/
@@ -66,9 +76,18 @@ inductive Desc
   | strm (d : Desc)                  -- NewStreamConnection
   deriving Repr
 
-def mkSafe (k : Kind) : W → W
-  | .safe k' f i => if k' = k then .safe k' f i else .safe k false (.safe k' f i)
-  | w => .safe k false w
+/-- a path into a `W`: `false` = the only / the reader child, `true` = the writer child of a pair -/
+abbrev Path := List Bool
+
+/-- `NewSafeX`: the object returned, and where the argument sits inside it (`[]` = it *is* the
+    argument: the reuse rule) -/
+def mkSafeP (k : Kind) : W → W × Path
+  | .safe k' f i => if k' = k then (.safe k' f i, []) else (.safe k false (.safe k' f i), [false])
+  | .res id h f c => (.safe k false (.res id h f c), [false])
+  | .deleg i => (.safe k false (.deleg i), [false])
+  | .pair r w => (.safe k false (.pair r w), [false])
+
+def mkSafe (k : Kind) (w : W) : W := (mkSafeP k w).1
 
 def build : Desc → W
   | .res id h f => .res id h f 0
@@ -78,9 +97,58 @@ def build : Desc → W
   | .sim d => .deleg (mkSafe .stream (build d))
   | .strm d => .deleg (mkSafe .stream (build d))
 
+def shift (pre : Path) (t : List Path) : List Path := t.map (pre ++ ·)
+
+/-- handle table: for every node of `d`, in prefix order, the path of its object in `build d` -/
+def handles : Desc → List Path
+  | .res .. => [[]]
+  | .safe k d => [] :: shift (mkSafeP k (build d)).2 (handles d)
+  | .named k d => [] :: shift (false :: (mkSafeP k (build d)).2) (handles d)
+  | .pair r w => [] :: (shift (false :: (mkSafeP .reader (build r)).2) (handles r)
+                        ++ shift (true :: (mkSafeP .writer (build w)).2) (handles w))
+  | .sim d => [] :: shift (false :: (mkSafeP .stream (build d)).2) (handles d)
+  | .strm d => [] :: shift (false :: (mkSafeP .stream (build d)).2) (handles d)
+
+/-- `build` together with the handle table -/
+def buildH (d : Desc) : W × List Path := (build d, handles d)
+
 def Desc.isWrapper : Desc → Bool
   | .res .. => false
   | _ => true
+
+def isRes : W → Bool
+  | .res .. => true
+  | _ => false
+
+/-- the object at a path -/
+def sub : W → Path → Option W
+  | w, [] => some w
+  | .safe _ _ i, false :: p => sub i p
+  | .deleg i, false :: p => sub i p
+  | .pair r _, false :: p => sub r p
+  | .pair _ w, true :: p => sub w p
+  | _, _ => none
+
+/-- the path denotes a wrapper object (not a bare resource) -/
+def wrapperAt (w : W) (p : Path) : Bool :=
+  match sub w p with
+  | some t => !isRes t
+  | none => false
+
+/-- `Close()` on the object at a path (no effect for a path that denotes nothing) -/
+def closeAtG (cj : Bool) : W → Path → W × Bool
+  | w, [] => closeG cj w
+  | .safe k f i, false :: p => let r := closeAtG cj i p; (.safe k f r.1, r.2)
+  | .deleg i, false :: p => let r := closeAtG cj i p; (.deleg r.1, r.2)
+  | .pair a b, false :: p => let r := closeAtG cj a p; (.pair r.1 b, r.2)
+  | .pair a b, true :: p => let r := closeAtG cj b p; (.pair a r.1, r.2)
+  | w, _ => (w, true)
+
+/-- `Closed()` on the object at a path -/
+def closedAtG (cj : Bool) (w : W) (p : Path) : Option Bool :=
+  match sub w p with
+  | some t => closedQG cj t
+  | none => none
 
 inductive Op | close | closed | read | write | str
   deriving DecidableEq, Repr
@@ -88,19 +156,42 @@ inductive Op | close | closed | read | write | str
 inductive Out | ok | err | bool (b : Bool) | none | unit
   deriving DecidableEq, Repr
 
-def step (w : W) : Op → W × Out
-  | .close => let r := close w; (r.1, if r.2 then .ok else .err)
-  | .closed => (w, match closedQ w with | some b => .bool b | Option.none => .none)
+def stepAtG (cj : Bool) (w : W) (p : Path) : Op → W × Out
+  | .close => let r := closeAtG cj w p; (r.1, if r.2 then .ok else .err)
+  | .closed => (w, match closedAtG cj w p with | some b => .bool b | Option.none => .none)
   | _ => (w, .unit)
 
-def run : W → List Op → W × List Out
+/-- ops addressed by path -/
+def runPG (cj : Bool) : W → List (Path × Op) → W × List Out
   | w, [] => (w, [])
-  | w, op :: ops =>
-      let r := step w op
-      let rest := run r.1 ops
+  | w, o :: ops =>
+      let r := stepAtG cj w o.1 o.2
+      let rest := runPG cj r.1 ops
       (rest.1, r.2 :: rest.2)
 
-/-! ### line protocol:  `wrap <desc tokens …> | <ops>`  -/
+/-- an op addressed to a handle (index into the handle table; 0 = outermost) -/
+abbrev NOp := Nat × Op
+
+def hpath (d : Desc) (h : Nat) : Path := (handles d).getD h []
+
+def resolve (d : Desc) (ops : List NOp) : List (Path × Op) := ops.map fun o => (hpath d o.1, o.2)
+
+/-- every op addresses an existing handle that is a wrapper -/
+def validOps (d : Desc) (ops : List NOp) : Bool :=
+  ops.all fun o => match (handles d)[o.1]? with
+    | some p => wrapperAt (build d) p
+    | Option.none => false
+
+def runG (cj : Bool) (d : Desc) (ops : List NOp) : W × List Out := runPG cj (build d) (resolve d ops)
+
+/-! the model of the code as it is: the pair's connective is the regenerated fact -/
+def closedQ : W → Option Bool := closedQG Gen.c19PairClosedAnd
+def close : W → W × Bool := closeG Gen.c19PairClosedAnd
+def closeAt : W → Path → W × Bool := closeAtG Gen.c19PairClosedAnd
+def closedAt : W → Path → Option Bool := closedAtG Gen.c19PairClosedAnd
+def run : Desc → List NOp → W × List Out := runG Gen.c19PairClosedAnd
+
+/-! ### line protocol:  `wrap <desc tokens …> | <op tokens …>`;  op token = `<handle index>?<letters>+`  -/
 
 def parseKind : Char → Option Kind
   | 'c' => some .conn | 's' => some .stream | 'r' => some .reader | 'w' => some .writer
@@ -143,18 +234,29 @@ def parseOp : Char → Option Op
 def outStr : Out → String
   | .ok => "ok" | .err => "err" | .bool b => boolStr b | .none => "none" | .unit => "."
 
+/-- one op token: optional decimal handle index (default 0 = outermost), then one or more letters -/
+def parseTok (t : String) : Option (List NOp) :=
+  let cs := t.toList
+  let ds := cs.takeWhile Char.isDigit
+  let ls := cs.dropWhile Char.isDigit
+  if ls.isEmpty then Option.none else
+  let h := if ds.isEmpty then some 0 else (String.ofList ds).toNat?
+  match h, ls.mapM parseOp with
+  | some h, some ops => some (ops.map fun o => (h, o))
+  | _, _ => Option.none
+
 /-- driver entry: tokens after the `wrap` keyword -/
 def handle (toks : List String) : String :=
   match parseDesc 64 toks with
-  | some (d, ["|", ops]) =>
-      match ops.toList.mapM parseOp with
-      | some ops =>
-          let r := run (build d) ops
-          " ".intercalate (r.2.map outStr) ++ " | " ++ natList (counts r.1)
+  | some (d, "|" :: otoks) =>
+      match otoks.mapM parseTok with
+      | some opss =>
+          let ops := opss.flatten
+          if validOps d ops then
+            let r := run d ops
+            " ".intercalate (r.2.map outStr) ++ " | " ++ natList (counts r.1)
+          else "bad-op"
       | Option.none => "bad-op"
-  | some (d, ["|"]) =>
-      let r := run (build d) []
-      " | " ++ natList (counts r.1)
   | _ => "bad-op"
 
 end SA.Wrappers
